@@ -312,12 +312,15 @@ fn correlated_alterations(ctx: &Ctx, w: &World) {
                 if i == j {
                     continue;
                 }
-                for with_s in [false, true] {
+                // hypotheses about how the coefficients could be (wrongly) formed: hashed without the S halves, hashed
+                // as documented, or all equal (sampled once and repeated)
+                for hyp in 0..3u8 {
+                    let with_s = hyp == 1;
                     ctx.eval(1);
                     let batch: Vec<Entry> = (0..n).map(|k| Entry { key: (k % 3) as u8, msg: ((k + 1) % 3) as u8, corrupt: 0 }).collect();
                     let mut mats: Vec<([u8; 32], Vec<u8>, [u8; 64])> = batch.iter().map(|e| w.material(e)).collect();
                     // coefficients under the hypothesis (hashes of R, A, M are unchanged by altering S)
-                    let z = coefficients(&mats, with_s);
+                    let z: Vec<U> = if hyp == 2 { vec![U::ONE; n] } else { coefficients(&mats, with_s) };
                     let si = Zl(U::from_le(&mats[i].2[32..])).add(&Zl::new(&z[j]));
                     let sj = Zl(U::from_le(&mats[j].2[32..])).sub(&Zl::new(&z[i]));
                     mats[i].2[32..].copy_from_slice(&si.to_bytes());
@@ -326,13 +329,13 @@ fn correlated_alterations(ctx: &Ctx, w: &World) {
                     let msgs: Vec<&[u8]> = mats.iter().map(|m| &m.1[..]).collect();
                     let sigs: Vec<Signature> = mats.iter().map(|m| Signature::from_bytes(&m.2)).collect();
                     let singles: Vec<bool> = (0..n).map(|k| keys[k].verify(msgs[k], &sigs[k]).is_ok()).collect();
-                    let case = json!({"kind": "batch_correlated_s", "n": n, "i": i, "j": j, "coefficients_hash_s": with_s});
+                    let case = json!({"kind": "batch_correlated_s", "n": n, "i": i, "j": j, "coefficients_hash_s": with_s, "coefficients_all_equal": hyp == 2});
                     match guarded(|| verify_batch(&msgs, &sigs, &keys).is_ok()) {
                         Ok(ok) => {
                             if ok != singles.iter().all(|x| *x) {
                                 ctx.violation(
                                     "batch.correlated_alteration",
-                                    &format!("verify_batch is_ok = {} although entries {} and {} are individually invalid (S halves altered by multiples of the other entry's coefficient{})", ok, i, j, if with_s { "" } else { ", coefficients computed without the S halves" }),
+                                    &format!("verify_batch is_ok = {} although entries {} and {} are individually invalid (S halves altered by multiples of the other entry's coefficient{})", ok, i, j, match hyp { 0 => ", coefficients computed without the S halves", 2 => ": +1 / -1, which cancels if all coefficients are equal", _ => "" }),
                                     case,
                                 );
                             }
